@@ -77,4 +77,6 @@ def jobs(pid, tier):
         return [seq('C09')]
     if pid == 'C12':
         return [seq('C12')]
+    if pid == 'C16':
+        return [seq('C16')]
     return []
